@@ -36,12 +36,12 @@ def run(ctx):
     exe = os.path.join(tdir, "c05")
     driver = os.path.join(VERIF, "ocaml", "c05", "driver")
     bound = 3 if ctx.thorough() else 2
-    maxex = 1500 if ctx.thorough() else 120
+    maxex = 1500 if ctx.thorough() else 100
     nsh = 32
     jobs = [("wit", [exe, "wit"])]
     for i in range(nsh):
         jobs.append(("exh:%d" % i, [exe, "exh", str(bound), str(i), str(nsh), str(ctx.seed), str(maxex)]))
-    nr = 12000 if ctx.thorough() else 1600
+    nr = 12000 if ctx.thorough() else 1200
     for i in range(nsh):
         jobs.append(("rnd:%d" % i, [exe, "rnd", str(nr), str(i), str(nsh), str(ctx.seed)]))
     r = vlib.run_pipelines(jobs, driver, timeout=2400)
@@ -89,16 +89,16 @@ def run(ctx):
                       "no schedule violating the event property (outside the known class) found among those explored: " + line,
                       {"obligation": "G1 trace equality between model/Event.v (theorems c05_*) and iceoryx2-cal event::common + bit_set / counting_bit_set",
                        "first_divergence": line, "execution": hist, "harness_cmd": cmd, "other_divergences": [m[2] for m in model_mm[1:6]]}, no_input=True)
-    # coverage of the model's access sites by the compared traces
+    # coverage of the model's access sites by the compared traces (counted by the driver), source lines from the witness job
     sites = {}
-    for lbl, argv in jobs[:1] + jobs[1:3] + jobs[1 + nsh:3 + nsh]:
-        rc, out = vlib.sh(" ".join(argv) + " 2>/dev/null | " + driver + " | grep ^SITE", timeout=900)
-        for l in out.split("\n"):
-            p = l.split()
-            if len(p) == 6 and p[0] == "SITE":
-                sites[p[1]] = {"source": p[2], "ord": p[3], "ord_fail": p[4]}
-    ctx.cov["model_sites"] = {k: dict(v, what=MODEL_SITES.get(k, "?")) for k, v in sorted(sites.items(), key=lambda x: int(x[0]))}
-    missing = [k for k in MODEL_SITES if k not in sites]
+    rc, out = vlib.sh(" ".join(jobs[0][1]) + " 2>/dev/null | " + driver + " | grep ^SITE", timeout=600)
+    for l in out.split("\n"):
+        p = l.split()
+        if len(p) == 6 and p[0] == "SITE":
+            sites[p[1]] = {"source": p[2], "ord": p[3], "ord_fail": p[4]}
+    ctx.cov["model_sites"] = {k: dict(sites.get(k, {}), what=MODEL_SITES[k], accesses=r["extra"].get("site_" + k, 0))
+                              for k in sorted(MODEL_SITES, key=int)}
+    missing = [k for k in MODEL_SITES if r["extra"].get("site_" + k, 0) == 0]
     if missing and not ctx.violations:
         ctx.violation("model access sites never exercised by the compared traces (the tie says nothing about them): %s" % missing, {"missing": missing}, no_input=True)
     # the three REAL triggers against the abstract trigger, sequentially
@@ -112,6 +112,15 @@ def run(ctx):
         ctx.violation("a real trigger does not refine the abstract trigger sequentially: " + l, {"line": l, "how_to_rerun": exe + " trig"})
     for l in [l for l in out.split("\n") if l.startswith("NOTE ")]:
         ctx.notes.append(l[5:])
+    # the known class on the REAL semaphore trigger (libc semaphore inside the real event::common): observable = a timed_wait
+    # that runs into its timeout although a notify returned Ok right after it began
+    rc, out = vlib.sh(exe + " sem 300 2>/dev/null", timeout=120)
+    sem = [l for l in out.split("\n") if l.startswith("SEM")]
+    ctx.cov["real_semaphore_trigger_replay"] = sem
+    if any("lost_wakeup_on_real_semaphore=true" in l for l in sem):
+        ctx.violation("lost wake-up (known class) on the real semaphore trigger: " + " | ".join(sem), {"lines": sem, "how_to_rerun": exe + " sem 300"}, key=KNOWN_KEY)
+    elif not any("control_immediate_wakeup=true" in l for l in sem):
+        ctx.notes.append("real-semaphore replay inconclusive (timing): " + " | ".join(sem))
     # the model-side search: the lost-wake-up configurations of the model are exactly the known class
     ok, xp = build_explorer()
     if ok:
